@@ -136,8 +136,11 @@ def _sel(tree):
     if not start_ok:
         raise TieBroken('get_sel_entry does not start with max_req_len = ENTIRE_RECORD')
     floor, floor_test = _sel_floor(g)
+    empty_stop, empty_test = _sel_empty_stop(g)
     cmp_entire, full, step, rec, shrink = [], [], [], [], []
     for n in ast.walk(g):
+        if n is empty_test:
+            continue
         if isinstance(n, ast.Compare) and len(n.ops) == 1 and _is_self_attr(n.left, 'max_req_len'):
             if n is floor_test:
                 continue
@@ -205,7 +208,8 @@ def _sel(tree):
     return {'entire': entire, 'full': _one(full, 'fallback length'), 'recLen': _one(rec, 'record length'),
             'step': _one(step, 'max_req_len decrement'), 'ccShrink': _one(shrink, 'shrink code'),
             'ccCancel': _one(cancel, 'cancel code'), 'first': ids['START_SEL_RECORD_ID'],
-            'last': ids['END_SEL_RECORD_ID'], 'floor': floor, 'budget': gac_retry if budget else None}
+            'last': ids['END_SEL_RECORD_ID'], 'floor': floor, 'budget': gac_retry if budget else None,
+            'emptyStop': empty_stop}
 
 
 def _is_retry_error(node):
@@ -248,6 +252,57 @@ def _sel_floor(g):
     return (f if isinstance(st.test.ops[0], ast.LtE) else f - 1), st.test
 
 
+def _is_rsp_data(node):
+    return isinstance(node, ast.Attribute) and node.attr == 'record_data' and _is_name(node.value, 'rsp')
+
+
+def _sel_empty_stop(g):
+    """The `while True` body of get_sel_entry between the completion-code test and `record_data.extend(
+    rsp.record_data)`: nothing (as shipped and after 8f8257b: an empty completed answer is appended and the same
+    request sent again) or `if len(rsp.record_data) == 0: raise RetryError()` (also `< 1`, `not rsp.record_data`).
+    -> (bool, test node)"""
+    loops = [st for st in g.body if isinstance(st, ast.While)]
+    if len(loops) != 1:
+        raise TieBroken('get_sel_entry: expected exactly one while loop')
+    body = loops[0].body
+    ext = [i for i, st in enumerate(body)
+           if isinstance(st, ast.Expr) and isinstance(st.value, ast.Call) and isinstance(st.value.func, ast.Attribute)
+           and st.value.func.attr == 'extend' and _is_name(st.value.func.value, 'record_data')
+           and len(st.value.args) == 1 and _is_rsp_data(st.value.args[0])]
+    if len(ext) != 1:
+        raise TieBroken('get_sel_entry: expected exactly one `record_data.extend(rsp.record_data)` in the loop body')
+    hits = []
+    for i, st in enumerate(body):
+        if not isinstance(st, ast.If):
+            continue
+        t = st.test
+        is_len = (isinstance(t, ast.Compare) and len(t.ops) == 1 and isinstance(t.left, ast.Call)
+                  and _is_name(t.left.func, 'len') and len(t.left.args) == 1 and _is_rsp_data(t.left.args[0]))
+        is_not = isinstance(t, ast.UnaryOp) and isinstance(t.op, ast.Not) and _is_rsp_data(t.operand)
+        if not (is_len or is_not):
+            continue
+        if is_len:
+            c = t.comparators[0]
+            ok = (isinstance(c, ast.Constant) and not isinstance(c.value, bool)
+                  and ((isinstance(t.ops[0], ast.Eq) and c.value == 0) or (isinstance(t.ops[0], ast.Lt) and c.value == 1)
+                       or (isinstance(t.ops[0], ast.LtE) and c.value == 0)))
+            if not ok:
+                raise TieBroken('get_sel_entry: len(rsp.record_data) is tested for something other than "empty"')
+        if st.orelse or len(st.body) != 1 or not _is_retry_error(st.body[0]):
+            raise TieBroken('get_sel_entry: the test for an empty answer does something other than `raise RetryError()`')
+        if i != ext[0] - 1:
+            raise TieBroken('get_sel_entry: the test for an empty answer is not directly in front of '
+                            '`record_data.extend(rsp.record_data)`')
+        hits.append(t)
+    if len(hits) > 1:
+        raise TieBroken('get_sel_entry: more than one test for an empty answer')
+    # the answer's data is used nowhere else in the loop (a counter / another exit would be outside the model)
+    uses = sum(1 for n in ast.walk(loops[0]) if _is_rsp_data(n))
+    if uses != 1 + len(hits):
+        raise TieBroken('get_sel_entry: rsp.record_data is used in %d places of the loop (expected %d)' % (uses, 1 + len(hits)))
+    return (True, hits[0]) if hits else (False, None)
+
+
 def _sel_budget(c):
     """get_and_clear_sel_entry: `while True:` without a retry parameter (as shipped) -> (False, 0), or
     `retry=N` with `while retry > 0: retry -= 1 …` ending in `raise RetryError()` -> (True, N)."""
@@ -282,7 +337,7 @@ def _sel_budget(c):
 
 DEFAULTS = {'fru': {'initReq': 32, 'dec': 2, 'caught': [202, 200, 201], 'writeLen': 16},
             'sel': {'entire': 255, 'full': 16, 'recLen': 16, 'step': 1, 'ccShrink': 202, 'ccCancel': 197,
-                    'first': 0, 'last': 65535, 'floor': 0, 'budget': 5}}
+                    'first': 0, 'last': 65535, 'floor': 0, 'budget': 5, 'emptyStop': True}}
 
 
 def extract(need=('fru', 'sel')):
@@ -321,15 +376,18 @@ def selCfg : PyIpmi.SelXfer.Cfg := ⟨%d, %d, %d, %d, %d, %d, %d, %d⟩
 
 /-- get_sel_entry: floor of max_req_len behind the decrement (`if self.max_req_len <= F: raise
 RetryError()`; none = the length is lowered without end); get_and_clear_sel_entry(record_id, retry=N):
-`while retry > 0: retry -= 1 …` ending in RetryError (none = `while True`, no such parameter) -/
-def selVariant : PyIpmi.SelXfer.Variant := ⟨%s, %s⟩
+`while retry > 0: retry -= 1 …` ending in RetryError (none = `while True`, no such parameter);
+get_sel_entry: `if len(rsp.record_data) == 0: raise RetryError()` in front of `record_data.extend(…)`
+(false = an empty completed answer is appended and the identical request sent again) -/
+def selVariant : PyIpmi.SelXfer.Variant := { floor := %s, budget := %s, emptyStop := %s }
 
 end PyIpmi.Gen.Loops10
 ''' % (f['initReq'], f['dec'], f['writeLen'],
        f['initReq'], f['dec'], ', '.join(str(x) for x in f['caught']), f['writeLen'],
        s['entire'], s['full'], s['recLen'], s['step'], s['ccShrink'], s['ccCancel'], s['first'], s['last'],
        'none' if s['floor'] is None else 'some (%d)' % s['floor'],
-       'none' if s['budget'] is None else 'some %d' % s['budget'])
+       'none' if s['budget'] is None else 'some %d' % s['budget'],
+       'true' if s.get('emptyStop') else 'false')
 
 
 def generate(need=('fru', 'sel')):
